@@ -252,7 +252,10 @@ def _lm_metrics(model, x, y, vocab, choice):
   for name, m in model.eval_metrics.items():
     if name in ('sequence_loss', 'token_loss'):
       continue
-    res[name] = _stat(fm.evaluate_batch(m, ex, jnp.asarray(lg)))
+    try:
+      res[name] = _stat(fm.evaluate_batch(m, ex, jnp.asarray(lg)))
+    except Exception as ex_:  # pylint: disable=broad-except
+      res[name] = {'accum': '-1', 'weight': '-1', 'error': type(ex_).__name__}     # the metric cannot score the dataset's output
   return res
 
 
@@ -375,11 +378,15 @@ def _run_consts(case):
   so = mso.create_lstm_model(vocab_size=10, lstm_hidden_size=2, embed_size=2)
   import inspect
   ids_first = (_metric_ids(sh), _metric_ids(so))
-  ms.create_lstm_model(vocab_size=5, lstm_hidden_size=2, embed_size=2, lstm_num_layers=1)
-  mso.create_lstm_model(vocab_size=3, lstm_hidden_size=2, embed_size=2, expected_length=2.0)
-  mso.create_lstm_model(vocab_size=10, lstm_hidden_size=2, embed_size=2, share_input_output_embeddings=True)
-  reuse_ok = ids_first == (_metric_ids(sh), _metric_ids(so)) and \
-      _metric_ids(ms.create_lstm_model(lstm_hidden_size=2, embed_size=2, lstm_num_layers=1)) == ids_first[0]
+  reuse_ok = True
+  for build in (lambda: ms.create_lstm_model(vocab_size=5, lstm_hidden_size=2, embed_size=2, lstm_num_layers=1),
+                lambda: mso.create_lstm_model(vocab_size=3, lstm_hidden_size=2, embed_size=2, expected_length=2.0),
+                lambda: mso.create_lstm_model(vocab_size=12, lstm_hidden_size=2, embed_size=2, share_input_output_embeddings=True)):
+    later = build()                     # re-inspect the FIRST models after every further construction
+    reuse_ok = reuse_ok and ids_first == (_metric_ids(sh), _metric_ids(so)) and later.eval_metrics is not so.eval_metrics \
+        and later.eval_metrics is not sh.eval_metrics
+  reuse_ok = reuse_ok and _metric_ids(ms.create_lstm_model(lstm_hidden_size=2, embed_size=2, lstm_num_layers=1)) == ids_first[0] \
+      and _metric_ids(mso.create_lstm_model(vocab_size=10, lstm_hidden_size=2, embed_size=2)) == ids_first[1]
   return {'status': 'ok', 'reuse_ok': bool(reuse_ok),
           'sh': {'PAD': int(shakespeare.PAD), 'BOS': int(shakespeare.BOS), 'EOS': int(shakespeare.EOS),
                  'OOV': int(shakespeare.OOV), 'VOCAB_SIZE': int(shakespeare.VOCAB_SIZE),
